@@ -5,12 +5,14 @@ import Qv.Driver.C15
 import Qv.Driver.C18
 import Qv.Driver.C07
 import Qv.Driver.C06
+import Qv.Driver.C09
+import Qv.Driver.C11
 /-! Line-protocol driver: one JSON object per input line, one JSON object per output line.
 Each `Qv/Driver/Cxx.lean` exports `handlersCxx`; add its import above and its list below. -/
 open Lean Qv Qv.Drv
 
 def allHandlers : List (String × (Json → Except String Json)) :=
-  handlersC05 ++ handlersC02 ++ handlersC19 ++ handlersC15 ++ handlersC18 ++ handlersC07 ++ handlersC06
+  handlersC05 ++ handlersC02 ++ handlersC19 ++ handlersC15 ++ handlersC18 ++ handlersC07 ++ handlersC06 ++ handlersC09 ++ handlersC11
 
 def dispatch (j : Json) : Except String Json := do
   let op ← j.getObjVal? "op" >>= Json.getStr?
